@@ -117,6 +117,16 @@ def optimize(expr):
                 else:
                     if len(expr) > 1:
                         expr = False
+            elif op == Operator.CASE:
+                # the key of a clause is data that is compared with the key form, it is never evaluated
+                keyform = [optimize(sub) for sub in expr[1:2]]
+                clauses = []
+                for clause in expr[2:]:
+                    if isinstance(clause, WList) and len(clause) > 0:
+                        body = [optimize(sub) for sub in clause[1:]]
+                        clause = WList([clause[0], *body], line_info=clause.line_info)
+                    clauses.append(clause)
+                expr = WList([op, *keyform, *clauses], line_info=expr.line_info)
             else:
                 expr = WList(list(map(optimize, expr)), line_info=expr.line_info)
 
